@@ -378,7 +378,7 @@ package server
 // C15/C11: undoing a POP puts the popped elements back where they were taken from, the head of the array: they are in
 // the list before the scan of the surviving elements starts (a refused request leaves the value unchanged)
 //@ func (*LockManager).ProcessRecoverLockData
-//@   at call NewLockManagerData assert C15.recover.shift-header,C11.recover.shift-header: implies(arg1 == protocol.LOCK_DATA_COMMAND_TYPE_SHIFT && len(currentData.data) >= 8, forall(k, 6, voffM(currentData), arg0[k] == currentData.data[k]))
+//@   at call NewLockManagerData assert C15.recover.shift-header,C11.recover.shift-header: implies(arg1 == protocol.LOCK_DATA_COMMAND_TYPE_SHIFT && len(currentData.data) >= 8 && voffM(currentData) <= len(currentData.data) && len(currentData.data) < 0x40000000 && len(astype(recoverValue, []byte)) < 0x40000000, forall(k, 6, voffM(currentData), arg0[k] == currentData.data[k]))
 //@   loop#4 entry C15.recover.pop-head,C11.recover.pop-head: implies(!isnil(recoverValue), len(values) == len(astype(recoverValue, [][]byte)))
 //@   modifies LockData.*, LockManagerData.isAof, LockManager.currentData, Lock.data
 //@ func (*LockManager).ProcessAckLockData
